@@ -309,3 +309,43 @@ def declare_c10(E):
                        " ghost('kex_sent') >= old(ghost('kex_sent')) + 1 and ghost('kex_sent_at_read') == old(ghost('reads')))",
                },
                raises={"SSHException": "True", "EOFError": "True", "OSError": "True"})
+
+
+# ---------------------------------------------------------------------------------------------------------- C09
+def declare_c09(E, expected_len=1):
+    """strict key exchange: mechanism pieces"""
+    declare(E)
+    declare_runloop(E, expected_packet_type="tuple[%s]" % ",".join(["u8"] * expected_len))
+    generic_handlers(E)
+    E.inline("paramiko.auth_handler.AuthHandler._handler_table", "paramiko.auth_handler.AuthHandler._server_handler_table",
+             "paramiko.auth_handler.AuthHandler._client_handler_table")
+    E.declare_ghost(ptype="int", seqno="int", got_message="bool", kex_dispatches="int")
+    c = E.contracts["paramiko.packet.Packetizer.read_message"]
+    c["ghost"] = {"ptype": "result[0]", "seqno": "result[1].seqno", "got_message": "True"}
+    E.contract("KexEngine.parse_next", argnames=["self", "ptype", "m"], returns="none", raises=dict(GENERIC_RAISES),
+               ghost={"kex_dispatches": "ghost('kex_dispatches') + 1"})
+    # _enforce_strict_kex: its own contract (verified), also what the loop fragment relies on
+    E.contract(T + "_enforce_strict_kex", params={"ptype": "int"},
+               ensures={"returns_only_outside_a_strict_initial_exchange": "not (self.agreed_on_strict_kex and not self.initial_kex_done)"},
+               raises={"MessageOrderError": "self.agreed_on_strict_kex and not self.initial_kex_done"},
+               returns="none", modifies=[])
+    E.contract(T + "_parse_debug", params={"m": "obj:Message"}, returns="none", raises=dict(GENERIC_RAISES), modifies=[])
+    E.contract(T + "_parse_disconnect", params={"m": "obj:Message"}, returns="none", raises=dict(GENERIC_RAISES), modifies=[])
+    IN_EXPECTED = " or ".join("ghost('ptype') == old(self._expected_packet)[%d]" % i for i in range(expected_len))
+    E.contract(RUN_ITER, params={"self": "obj:Transport"},
+               requires={"active": "self.active",
+                         "strict_mode_agreed_and_first_exchange_unfinished": "self.agreed_on_strict_kex and not self.initial_kex_done",
+                         "a_key_exchange_packet_is_expected": "len(self._expected_packet) == %d" % expected_len,
+                         "nothing_read_yet": "not ghost('got_message')"},
+               ghosts={"ptype": "int", "seqno": "int", "got_message": "bool", "kex_dispatches": "int", "handler_calls": "int",
+                       "sent_count": "int"},
+               ensures={
+                   # the iteration runs to its end (or leaves the loop through DISCONNECT) only for the expected packet
+                   "anything_but_the_expected_packet_ends_the_connection":
+                       "implies(ghost('got_message'), (%s) or (ghost('ptype') == 1 and ghost('loop_exit') == 'break'))" % IN_EXPECTED,
+                   "nothing_is_dispatched_or_answered_for_an_unexpected_packet":
+                       "implies(ghost('got_message') and not (%s), ghost('kex_dispatches') == old(ghost('kex_dispatches'))"
+                       " and ghost('handler_calls') == old(ghost('handler_calls')) and ghost('sent_count') == old(ghost('sent_count')))" % IN_EXPECTED,
+               },
+               raises={"MessageOrderError": "True", "SSHException": "ghost('got_message') and (%s)" % IN_EXPECTED if False else "True",
+                       "EOFError": "True", "OSError": "True"})
